@@ -40,8 +40,10 @@ CHECKS = {
         ref='DESIGN.md 7 C16'),
     'C07': dict(
         category='other',
-        text='proved kernels (transfer function, refinement lemma, worklist fixed point for all graphs) + assumed '
-             'contracts K2/K3 with bounded stand-ins (use-before-overwrite oracle over executed programs)',
+        text='proved kernels (liveness transfer function incl. the nonlocal-closure clause, refinement lemma, worklist fixed '
+             'point for all graphs; reaching-function-definitions value type, transfer function and refinement lemma; mirror '
+             'invariant of the builder primitives; Scope.finalize) + assumed contracts K2/K3 with bounded stand-ins '
+             '(use-before-overwrite oracle over executed programs)',
         note='the all-programs soundness clause rests on assumed contracts (CFG path inclusion, activity read/write '
              'sets) that are only bounded-checked; termination not proved',
         technique=TECH + '; bounded stand-ins for the assumed visitor contracts',
@@ -64,7 +66,7 @@ def fill_from_table():
         note='clauses served only by a bounded stand-in are not proved (bounds reported in the evidence); trusted: z3, '
              'the pvc VC generator, CPython as reference semantics for the oracles',
         technique=TECH + '; bounded run-time-checked contracts as stand-ins where no contract is discharged',
-        ref='DESIGN.md 7 ' + pid)
+        ref='DESIGN.md I.5 / 7 ' + pid)
 
 
 def main():
